@@ -4,6 +4,7 @@ Tables of text cells are written by the independent ODF producer (mc/models/odf.
 optional encoding feature switched on or off (deviation-bounded over the switches) and read back
 with rowio.ods_rows and cutplace.rows; malformed containers must fail with DataFormatError.
 """
+import io
 import itertools
 import os
 import zipfile
@@ -98,6 +99,23 @@ def judge(case, part):
             what = "cell-text"
         part.fail(tag % ("table-differs:" + what), case, expected, observed)
         return
+    if case.get("api", True):
+        # the document as an open binary stream, read twice in a row without rewinding it by hand, and as a stream in memory
+        try:
+            with open(path, "rb") as stream:
+                first = [list(row) for row in m["rowio"].ods_rows(stream, sheet)]
+                second = [list(row) for row in m["rowio"].ods_rows(stream, sheet)]
+            with open(path, "rb") as stream:
+                memory = io.BytesIO(stream.read())
+            third = [list(row) for row in m["rowio"].ods_rows(memory, sheet)]
+            fourth = [list(row) for row in m["rowio"].ods_rows(memory, sheet)]
+            streamed = [first, second, third, fourth]
+        except Exception as error:
+            streamed = "raised-%s: %s" % (type(error).__name__, error)
+        part.transitions += 4
+        part.validated += 1
+        if streamed != [expected] * 4:
+            part.fail(tag % "stream-source-differs", case, expected, streamed)
     # through cutplace.rows under an all-Text CID with Sheet k (rectangular tables with at least one column)
     widths = {len(row) for row in expected}
     if len(widths) == 1 and 0 not in widths and case.get("api", True):
